@@ -23,7 +23,7 @@ def check_c01(tier, seed, replay=None):
     agg = run_cases(bins[('h_exact', 'plain')], 'c01', seed, n, opts=dict(max_n=T(tier, 40, 80)))
     v.absorb(agg)
     na = T(tier, 150, 3000)
-    agg2 = run_cases(bins[('h_exact', 'asan')], 'c01', seed + 1000003, na, opts=dict(max_n=T(tier, 24, 40)), env=ASAN_ENV, source='h_exact(asan+asserts):c01')
+    agg2 = run_cases(bins[('h_exact', 'asan')], 'c01', seed + 1000003, na, opts=dict(max_n=T(tier, 24, 40), large=0), env=ASAN_ENV, source='h_exact(asan+asserts):c01')
     v.absorb(agg2)
     cov = base_coverage(agg, 'generated simple graphs (families in tallies; random numbering and insertion order), weight types double and int, three sequential exact variants each; '
                         'non-trivial = cycle space dimension >= 2; distinct = canonical hash of (n, sorted weighted edge list, weight type)',
@@ -61,7 +61,7 @@ def check_c02(tier, seed, replay=None):
     n = T(tier, 4000, 150000)
     agg = run_cases(bins[('h_exact', 'plain')], 'c02', seed, n, opts=dict(max_n=T(tier, 30, 80)))
     v.absorb(agg)
-    agg2 = run_cases(bins[('h_exact', 'asan')], 'c02', seed + 1000003, T(tier, 120, 2500), opts=dict(max_n=T(tier, 20, 36)), env=ASAN_ENV, source='h_exact(asan+asserts):c02')
+    agg2 = run_cases(bins[('h_exact', 'asan')], 'c02', seed + 1000003, T(tier, 120, 2500), opts=dict(max_n=T(tier, 20, 36), large=0), env=ASAN_ENV, source='h_exact(asan+asserts):c02')
     v.absorb(agg2)
     nx = oracle_vs_networkx(bins[('h_exact', 'plain')], seed, T(tier, 120, 3000), T(tier, 22, 30))
     if nx.get('n_disagreements'):
@@ -155,7 +155,7 @@ def check_c13(tier, seed, replay=None):
     bins = build_many([('h_parts', 'plain'), ('h_parts', 'asan')])
     agg = run_cases(bins[('h_parts', 'plain')], 'c13', seed, T(tier, 5000, 500000), opts=dict(max_n=T(tier, 120, 200)))
     v.absorb(agg)
-    agg2 = run_cases(bins[('h_parts', 'asan')], 'c13', seed + 1000003, T(tier, 300, 6000), opts=dict(max_n=80), env=ASAN_ENV, source='h_parts(asan):c13')
+    agg2 = run_cases(bins[('h_parts', 'asan')], 'c13', seed + 1000003, T(tier, 300, 6000), opts=dict(max_n=80, large=0), env=ASAN_ENV, source='h_parts(asan):c13')
     v.absorb(agg2)
     cov = base_coverage(agg, 'all graph families up to 200 vertices plus hubs and caterpillars glued to cycles (repeated degree<=1 clean-up); oracle: vertices valid and distinct, union-find acyclicity of the rest, '
                         'nothing for forests; non-trivial = cycle space dimension >= 2',
@@ -324,16 +324,16 @@ def check_c07(tier, seed, replay=None):
                        ('h_vec', 'valgrind'), ('h_dimacs', 'valgrind'), ('h_parts', 'valgrind'), ('h_exact', 'valgrind')])
     sd = seed + 7000003
     plan = [  # (harness, mode, quick cases, thorough cases, opts)
-        ('h_exact', 'c01', 250, 4000, dict(max_n=T(tier, 24, 40))),
-        ('h_exact', 'c02', 120, 2000, dict(max_n=T(tier, 20, 32))),
+        ('h_exact', 'c01', 250, 4000, dict(max_n=T(tier, 24, 40), large=0)),
+        ('h_exact', 'c02', 120, 2000, dict(max_n=T(tier, 20, 32), large=0)),
         ('h_sched', 'c03real', 60, 1200, dict(max_n=T(tier, 18, 26), schedules=1)),
         ('h_approx', 'c05', 200, 3000, dict(max_n=T(tier, 18, 30), deref=1)),
         ('h_approx', 'c06', 100, 2000, dict(max_n=T(tier, 18, 30))),
         ('h_approx', 'c15', 150, 3000, dict(max_n=T(tier, 20, 30))),
-        ('h_parts', 'c12', 80, 1500, dict(max_n=T(tier, 12, 20))),
-        ('h_parts', 'c13', 300, 6000, dict(max_n=80)),
-        ('h_parts', 'c14', 100, 2000, dict(max_n=T(tier, 16, 24))),
-        ('h_parts', 'c16', 500, 20000, dict(max_n=40)),
+        ('h_parts', 'c12', 80, 1500, dict(max_n=T(tier, 12, 20), large=0)),
+        ('h_parts', 'c13', 300, 6000, dict(max_n=80, large=0)),
+        ('h_parts', 'c14', 100, 2000, dict(max_n=T(tier, 16, 24), large=0)),
+        ('h_parts', 'c16', 500, 20000, dict(max_n=40, large=0)),
         ('h_vec', 'c17', 1500, 60000, {}),
         ('h_vec', 'c18gcd', 160, 2000, {}),
         ('h_vec', 'c18inv', 120, 1500, {}),
@@ -370,8 +370,8 @@ def check_c07(tier, seed, replay=None):
     total.evaluations += am.evaluations
     # valgrind memcheck for uninitialised-value use (ASan does not see it)
     vg = ['valgrind', '--quiet', '--error-exitcode=97', '--track-origins=no', '--leak-check=no', '--undef-value-errors=yes']
-    for h, mode, q, t, opts in [('h_vec', 'c18gcd', 135, 400, {}), ('h_vec', 'c18vec', 120, 2000, {}), ('h_vec', 'c17', 100, 2000, {}), ('h_dimacs', 'c10', 300, 6000, {}), ('h_parts', 'c13', 40, 600, dict(max_n=40)),
-                                ('h_parts', 'c16', 60, 1000, dict(max_n=30)), ('h_exact', 'c01', 16, 200, dict(max_n=12))]:
+    for h, mode, q, t, opts in [('h_vec', 'c18gcd', 135, 400, {}), ('h_vec', 'c18vec', 120, 2000, {}), ('h_vec', 'c17', 100, 2000, {}), ('h_dimacs', 'c10', 300, 6000, {}), ('h_parts', 'c13', 40, 600, dict(max_n=40, large=0)),
+                                ('h_parts', 'c16', 60, 1000, dict(max_n=30, large=0)), ('h_exact', 'c01', 16, 200, dict(max_n=12, large=0))]:
         a = run_cases(bins[(h, 'valgrind')], mode, sd + 5, T(tier, q, t), opts=opts, wrapper=vg, source='%s(memcheck):%s' % (h, mode), timeout=3600)
         for c in a.crashes:
             if c['rc'] == 97:
